@@ -54,7 +54,7 @@ pub broadcast proof fn axiom_eventfd_read(fd: int, data: Seq<u8>)
     ensures r matches Ok(c) ==> c == pending_counter(),
 //@ enditem
 
-//@ slice src/sources/ping/eventfd.rs / impl EventSource for PingSource / fn process_events :: closure 1 props=C03,C04,C10,C12,C02 name=PingSource::process_events::event_closure
+//@ slice src/sources/ping/eventfd.rs / impl EventSource for PingSource / fn process_events :: closure 1 props=C03,C04,C10,C12,C02,C01 name=PingSource::process_events::event_closure
 //@ sig
 /// S1 slice: body of the closure PingSource::process_events passes to its inner Generic; `fd` is the closure
 /// parameter, `callback` the captured user callback (captured by unique borrow in the real code).
